@@ -145,6 +145,29 @@ def run(ctx):
             elif r1[1][0] is not r0[1][0] or r1[1][1] != r0[1][1]:
                 ctx.report('property', f'select_variables({sub}): the subset is handled by {r1[1][0].__name__} and its polygons '
                            f'{"differ from" if r1[1][1] != r0[1][1] else "equal"} those of the dataset ({r0[1][0].__name__})', qcase)
+    # ---- a mesh whose stored face positions (face_coordinates) are held as xarray coordinates, the others as plain variables:
+    # every geometry variable stays with a subset of the data variables, and the face centres stay the stored ones
+    for coords_mode in (True, False):
+        dm_ = gen.ugrid(rng, w=3, h=2, invalid=False, supplied=set(), face_coords=True, coords_as_coords=coords_mode)
+        gen.add_data_vars(rng, dm_.ds, {'face': dm_.spec['kinds']['face']}, names_prefix='fv', n_extra_max=0)
+        dsm = dm_.ds
+        if coords_mode:
+            dsm = dsm.set_coords([v for v in ('Mesh2_face_x', 'Mesh2_face_y') if v in dsm.data_vars])
+        mcase = {'dataset': dm_.spec['label'], 'face positions held as': 'coordinates' if 'Mesh2_face_x' in dsm.coords else 'variables'}
+        ctx.case((dm_.spec['label'], 'face positions', coords_mode), True)
+        ctx.count('select_variables:stored face positions')
+        with warnings.catch_warnings():
+            warnings.simplefilter('ignore')
+            r = attempt(lambda: dsm.ems.select_variables(['fv_face_0']))
+            c0 = attempt(lambda: numpy.asarray(dsm.ems.face_centres).tolist())
+            c1 = attempt(lambda: numpy.asarray(r[1].ems.face_centres).tolist()) if r[0] == 'ok' else r
+        want_c = [[float(a), float(b)] for a, b in zip(dsm['Mesh2_face_x'].values, dsm['Mesh2_face_y'].values)]
+        if r[0] != 'ok':
+            ctx.report('property', f'select_variables failed: {r[1]}', mcase)
+        elif not {'Mesh2_face_x', 'Mesh2_face_y'} <= set(map(str, r[1].variables)):
+            ctx.report('property', f'select_variables dropped the stored face positions: the subset holds {sorted(map(str, r[1].variables))}', mcase)
+        elif c0[0] != 'ok' or c1[0] != 'ok' or c0[1] != want_c or c1[1] != want_c:
+            ctx.report('property', 'the face centres of the dataset / of the subset are not the stored face positions', mcase)
     narrow_tables(ctx)
     fl, tmp = cc.flows(ctx, 35 if quick else 140, quick)
     exprs, plans = [], []
